@@ -322,7 +322,8 @@ def latest_results():
 
 def summary():
     from collections import Counter
-    rs = latest_results()
+    current = {m["id"] for m in gen_mutants(list(CHECKS_FOR))}
+    rs = [r for r in latest_results() if r["id"] in current]   # (results for an older HEAD are ignored)
     c = Counter(r["status"] for r in rs)
     print(dict(c))
     alive = [r for r in rs if r["status"] in ("survivor", "killed-by-check")]
